@@ -1294,3 +1294,49 @@ def _localise_attrs(m):
 
 for _i, _m in enumerate(_MODS + [FU]):
     VARIANTS.append(V(f'G-loc-{_i:02d}', 'E', ALL, _m, None, r'\A.*\Z', _localise_attrs, flags=re.S, note='attributes of self that only set-up methods assign are bound to locals at the top of each method that reads them twice'))
+
+
+# ---------------------------------------------------------------------- values bound to a temporary before they are put / returned / yielded
+def _bind_temps(kind):
+    def f(m):
+        import ast as _ast
+
+        src = m.group(0)
+        tree = _ast.parse(src)
+        k = [0]
+
+        def simple(e):
+            return isinstance(e, (_ast.Name, _ast.Constant)) or e is None
+
+        for fn in [x for x in _ast.walk(tree) if isinstance(x, (_ast.FunctionDef, _ast.AsyncFunctionDef))]:
+            used = {x.id for x in _ast.walk(fn) if isinstance(x, _ast.Name)}
+            for node in _ast.walk(fn):
+                for fld in ('body', 'orelse', 'finalbody'):
+                    blk = getattr(node, fld, None)
+                    if not (isinstance(blk, list) and blk and isinstance(blk[0], _ast.stmt)):
+                        continue
+                    out = []
+                    for st in blk:
+                        tmp = f'{kind}_tmp{k[0]}'
+                        if kind == 'put' and isinstance(st, _ast.Expr) and isinstance(st.value, _ast.Call) and isinstance(st.value.func, _ast.Attribute) and st.value.func.attr == 'put' and len(st.value.args) == 1 and not st.value.keywords and not simple(st.value.args[0]) and not isinstance(st.value.args[0], _ast.Starred) and tmp not in used:
+                            out.append(_ast.copy_location(_ast.Assign(targets=[_ast.Name(id=tmp, ctx=_ast.Store())], value=st.value.args[0]), st))
+                            st.value.args[0] = _ast.Name(id=tmp, ctx=_ast.Load())
+                            k[0] += 1
+                        elif kind == 'ret' and isinstance(st, _ast.Return) and not simple(st.value) and not isinstance(st.value, (_ast.Await,)) and tmp not in used:
+                            out.append(_ast.copy_location(_ast.Assign(targets=[_ast.Name(id=tmp, ctx=_ast.Store())], value=st.value), st))
+                            st.value = _ast.Name(id=tmp, ctx=_ast.Load())
+                            k[0] += 1
+                        elif kind == 'yld' and isinstance(st, _ast.Expr) and isinstance(st.value, _ast.Yield) and not simple(st.value.value) and tmp not in used:
+                            out.append(_ast.copy_location(_ast.Assign(targets=[_ast.Name(id=tmp, ctx=_ast.Store())], value=st.value.value), st))
+                            st.value.value = _ast.Name(id=tmp, ctx=_ast.Load())
+                            k[0] += 1
+                        out.append(st)
+                    blk[:] = out
+        return (_ast.unparse(_ast.fix_missing_locations(tree)) + '\n') if k[0] else src
+
+    return f
+
+
+for _i, _m in enumerate(_MODS + [FU]):
+    for _k in ('put', 'ret', 'yld'):
+        VARIANTS.append(V(f'G-t{_k}-{_i:02d}', 'E', ALL, _m, None, r'\A.*\Z', _bind_temps(_k), flags=re.S, note=f'value bound to a temporary before every {_k}'))
